@@ -100,6 +100,7 @@ type pSite struct {
 	want    int
 	static  bool // the page shows none of the inputs
 	xhrOnly bool
+	svc     int  // which service answers (0 proxy, 1 authenticator mux)
 	bare    bool // not an ErrorPage call site: the answer does not depend on X-Requested-With
 	few     bool // slow site: only a few (Accept, XHR) combinations
 	run     func(w *world, g *hostile, xhr bool) (*httptest.ResponseRecorder, *errData)
@@ -109,8 +110,17 @@ func (w *world) pDo(pw *c.ProxyWorld, target string, xhr bool, cookies ...*http.
 	return w.pDoM(pw, "GET", target, xhr, cookies...)
 }
 
+// hostOf: proxyW is a deployment of two upstreams (configured in an order that depends on the
+// seed); the host a case talks to alternates with the salt, so every upstream is checked
+func (w *world) hostOf(pw *c.ProxyWorld) string {
+	if pw == w.proxyW && curSalt%2 == 1 {
+		return proxyHost2
+	}
+	return proxyHost
+}
+
 func (w *world) pDoM(pw *c.ProxyWorld, method, target string, xhr bool, cookies ...*http.Cookie) *httptest.ResponseRecorder {
-	req, ok := newReq(method, proxyHost, target)
+	req, ok := newReq(method, w.hostOf(pw), target)
 	if !ok {
 		return nil
 	}
@@ -125,7 +135,17 @@ func (w *world) pDoM(pw *c.ProxyWorld, method, target string, xhr bool, cookies 
 
 // startFlow runs the real OAuthStart and returns the sealed state and the CSRF cookie.
 func (w *world) startFlow(pw *c.ProxyWorld) (string, *http.Cookie) {
-	rec := pw.Do(c.NewReq("GET", proxyHost, "/"))
+	return w.startFlowAt(pw, "/")
+}
+
+// startFlowAt: the flow is started by an unauthenticated request for [target] (which OAuthStart
+// seals into state and CSRF cookie and the callback finally redirects to)
+func (w *world) startFlowAt(pw *c.ProxyWorld, target string) (string, *http.Cookie) {
+	rq, ok := newReq("GET", w.hostOf(pw), target)
+	if !ok {
+		rq, _ = newReq("GET", w.hostOf(pw), "/")
+	}
+	rec := pw.Do(rq)
 	loc, _ := url.Parse(rec.Header().Get("Location"))
 	state := loc.Query().Get("state")
 	var csrf *http.Cookie
@@ -149,11 +169,35 @@ func redeemOK(email string) c.Answer {
 func (w *world) proxySession(pw *c.ProxyWorld, g *hostile, email string, refreshIn, validIn time.Duration) *http.Cookie {
 	s := &sessions.SessionState{
 		ProviderSlug: "google", ProviderType: "sso", Email: email, User: g.next(), Groups: []string{g.next()},
-		AccessToken: "at", RefreshToken: "rt", AuthorizedUpstream: proxyHost,
+		AccessToken: "at", RefreshToken: "rt", AuthorizedUpstream: w.hostOf(pw),
 		LifetimeDeadline: time.Now().Add(24 * time.Hour), RefreshDeadline: time.Now().Add(refreshIn),
 		ValidDeadline: time.Now().Add(validIn),
 	}
 	return &http.Cookie{Name: pw.CookieName, Value: pw.Seal(s)}
+}
+
+// a request for a host no route exists for. req.Host is fed from the Host header (net/http checks
+// its bytes) or, with an absolute-form request target, from the target (net/url lets < > " through)
+func unroutedRequest(g *hostile) *http.Request {
+	p := "/" + qe(g.next()) + "?q=" + qe(g.next())
+	if curSalt%2 == 0 {
+		h := ""
+		for _, ch := range []byte(strings.Join(g.l, "")) {
+			if len(h) < 60 && ch > 0x20 && ch < 0x7f && strings.IndexByte("/?#@\\[]:%^|`{}", ch) < 0 {
+				h += string(ch)
+			}
+		}
+		if _, err := url.Parse("http://" + h + ".nosuch.test" + p); err == nil {
+			return rawRequest("GET", "front.example.test", "http://"+h+".nosuch.test"+p)
+		}
+	}
+	h := ""
+	for _, ch := range []byte(strings.Join(g.l, "")) {
+		if len(h) < 40 && validHost(string(ch)) && ch != ':' && ch != '[' && ch != ']' && ch != '%' {
+			h += string(ch)
+		}
+	}
+	return rawRequest("GET", h+".nosuch.test", p)
 }
 
 var faultMethods = []string{"GET", "POST", "PUT", "DELETE", "PATCH", "HEAD"}
@@ -275,6 +319,15 @@ var proxySites = []pSite{
 		run: func(w *world, g *hostile, xhr bool) (*httptest.ResponseRecorder, *errData) {
 			return w.upstreamFault(w.proxySlow, g, xhr), nil
 		}},
+	{name: "sso-proxy, host without a route (Host header, or absolute-form target carrying any bytes) -> hostmux 421 Misdirected Request (hostmux.go:18)", want: 421, static: true, bare: true,
+		run: func(w *world, g *hostile, xhr bool) (*httptest.ResponseRecorder, *errData) {
+			return wireOf(w.proxyW, w.proxyHandler(w.proxyW)).roundTrip(unroutedRequest(g)), nil
+		}},
+	{name: "sso-auth, host without a route -> hostmux 421 Misdirected Request (hostmux.go:18)", want: 421, static: true, bare: true, svc: 1,
+		run: func(w *world, g *hostile, xhr bool) (*httptest.ResponseRecorder, *errData) {
+			a := w.auths[0]
+			return wireOf(a, a.h).roundTrip(unroutedRequest(g)), nil
+		}},
 	{name: "request without session on XHR: OAuthStart refuses (:324)", want: 401, static: true, xhrOnly: true,
 		run: func(w *world, g *hostile, xhr bool) (*httptest.ResponseRecorder, *errData) {
 			return w.pDo(w.proxyW, "/page?x="+qe(g.next()), true), nil
@@ -328,15 +381,15 @@ func (w *world) proxySiteCase(idx int, hl []string, must bool, variants []vmode)
 	var failRec, failRecB *httptest.ResponseRecorder
 	fail := func(what string, code int) {
 		if must {
-			w.divergedCase(0, idx, s.name, fmt.Sprintf("call site not reached (%s, status %d, expected %d)", what, code, s.want), hl, failRec, failRecB)
+			w.divergedCase(s.svc, idx, s.name, fmt.Sprintf("call site not reached (%s, status %d, expected %d)", what, code, s.want), hl, failRec, failRecB)
 		}
 	}
 	run := func(hostileRun bool, v vmode) (*httptest.ResponseRecorder, *errData) {
 		if hostileRun {
-			curMode = rmode{hasAccept: v.hasAccept, accept: v.accept, xhr: v.xhr, hdr: hh}
+			curMode = v.rmode(hh)
 			return s.run(w, &hostile{l: hl}, false)
 		}
-		curMode = rmode{hasAccept: v.hasAccept, accept: v.accept, xhr: v.xhr, hdr: benignHeaders}
+		curMode = v.rmode(benignHeaders)
 		return s.run(w, &hostile{l: benignList}, false)
 	}
 	if s.xhrOnly {
@@ -397,7 +450,7 @@ func (w *world) proxySiteCase(idx int, hl []string, must bool, variants []vmode)
 		}
 	}
 	if s.static {
-		w.sameCase(0, idx, s.name+hdrNote, hl, ctOf(rec), real, benign, vars, names)
+		w.sameCase(s.svc, idx, s.name+hdrNote, hl, ctOf(rec), real, benign, vars, names)
 	} else {
 		w.pageCaseB(0, "error.html", *data, ctOf(rec), real, benign, 1, s.name+hdrNote, vars, names)
 	}
@@ -833,10 +886,10 @@ func (w *world) authSiteCase(idx int, hl []string, must bool, variants []vmode) 
 	defer func() { curMode, curTS = rmode{}, 0 }()
 	run := func(hostileRun bool, v vmode) (*authWorld, *httptest.ResponseRecorder) {
 		if hostileRun {
-			curMode = rmode{hasAccept: v.hasAccept, accept: v.accept, xhr: v.xhr, hdr: hh}
+			curMode = v.rmode(hh)
 			return s.run(w, &hostile{l: hl}, false)
 		}
-		curMode = rmode{hasAccept: v.hasAccept, accept: v.accept, xhr: v.xhr, hdr: benignHeaders}
+		curMode = v.rmode(benignHeaders)
 		return s.run(w, &hostile{l: benignList}, false)
 	}
 	curSalt++
